@@ -118,5 +118,4 @@ theorem ops_eq_spec (c : Chain) (k : Nat) (hk : k < c.length) : ops c k = opsSpe
     rw [mem_ops c k i j hk]
     exact (mem_quadOps c k i j).symm
 
-#print axioms ops_eq_spec
 end P
